@@ -4,7 +4,10 @@ The stored history is the concatenation of all recorded fit / partial_fit rows; 
 is selected by mon.oracles.nhood in exact integer arithmetic (boundary included; every admissible completion of
 a k-th distance tie accepted); the reference expectations come from a *fresh* context-free or linear bandit
 trained on exactly those rows.  Empty neighbourhoods must give all-NaN expectations and predict must stay
-inside the support of the configured empty-neighbourhood distribution."""
+inside the support of the configured empty-neighbourhood distribution.
+
+As built: Randomised learning policies (Thompson, Softmax, Popularity, Random, EpsilonGreedy(eps>0)) are checked too: the reference bandit is seeded with the row's own seed, reproduced from a clone of the bandit's generator (one int32 per row, drawn before partitioning). One 130-row batch in 1/12 of the cases.
+"""
 from mon import env  # noqa: F401
 import math
 from fractions import Fraction
